@@ -205,7 +205,23 @@ def refmerge_part(run, scratch, cfg):
 
         ip = [ins_positions(l) for l in lay]
         adjacent = any("XY" in "".join(l) or "YX" in "".join(l) for l in lay)
-        run.fail(f"refmerge:pairwise-alignment-not-kept:insertion-adjacent-to-deletion={adjacent}", {"layouts": lay, "case": cases[b - 1]}, what="multiple alignment does not keep a sequence's pairwise alignment with the reference")
+
+        def del_positions(l):
+            pos, r = set(), 0
+            for st in l:
+                if st == "X":
+                    pos.add(r)
+                if st != "Y":
+                    r += 1
+            return pos
+
+        # an insertion of one sequence (ref gap at position p) that falls inside or at the edge of a run of
+        # reference positions another sequence lacks
+        cross = any(
+            (p in del_positions(lay[j2]) or (p - 1) in del_positions(lay[j2]))
+            for i2 in range(len(lay)) for j2 in range(len(lay)) if i2 != j2 for p in ip[i2]
+        )
+        run.fail(f"refmerge:pairwise-alignment-not-kept:indel-adjacent-within-a-pair={adjacent}:insertion-in-another-sequences-deletion={cross}", {"layouts": lay, "case": cases[b - 1]}, what="multiple alignment does not keep a sequence's pairwise alignment with the reference")
     if cases:
         run.sample({"refmerge_case": cases[len(cases) // 2]})
     return len(cases)
